@@ -138,7 +138,9 @@ def scalar_binop(I, ty, a, b, elementwise=False):
             if not elementwise:
                 I.oblige(f"mod_by_zero@{I.cur_line}", y != 0, "safety")
             return z3.If(y > 0, x % y, -((-x) % (-y)))
-        raise Unsupported("modulo of reals")
+        # x % m on reals (python / numpy floor-mod): FMOD with its defining
+        # facts for a positive modulus (background axiom below)
+        return FMOD(to_real(x), to_real(y))
     if ty is ast.Pow:
         if isinstance(b, int) and 0 <= b <= 4:
             r = to_z3(1) if z3.is_int(x) else z3.RealVal(1)
@@ -1001,6 +1003,9 @@ class FileHandle:
 
 
 # ----------------------------------------------------------------- names
+FMOD = z3.Function("FMOD", z3.RealSort(), z3.RealSort(), z3.RealSort())
+
+
 def uf(name, ret, *args):
     f = z3.Function(name, *[a.sort() for a in args], ret)
     return f(*args)
@@ -2008,6 +2013,10 @@ def _spec_isfinite(I, x):
 @lib("numpy.cumsum")
 def _cumsum(I, x, **kw):
     x = _val(x)
+    if _scalar(x) and not isinstance(x, (bool, str)):
+        # np.cumsum of a 0-d value: the one-element array holding it
+        xv = to_real(x)
+        x = SymSeq(1, lambda i: xv, "Real")
     if not isinstance(x, SymSeq):
         raise Unsupported("cumsum of non-seq")
     srt = z3.RealSort() if x.elem == "Real" else z3.IntSort()
@@ -2186,6 +2195,30 @@ for _g in ("GA", "GB", "GJ", "HA", "HB", "HJ"):
         "spec." + _g, (lambda I, a, b, _gf=_gf: _gf(to_real(_val(a)),
                                                     to_real(_val(b)))))
 
+
+_fx_, _fm_ = z3.Reals("x!fmod m!fmod")
+from .values import BACKGROUND as _BG0   # noqa: E402
+_BG0.append(z3.ForAll([_fx_, _fm_], z3.Implies(_fm_ > 0, z3.And(
+    FMOD(_fx_, _fm_) >= 0, FMOD(_fx_, _fm_) < _fm_,
+    z3.Implies(z3.And(_fx_ >= 0, _fx_ < _fm_), FMOD(_fx_, _fm_) == _fx_),
+    z3.Implies(z3.And(_fx_ >= -_fm_, _fx_ < 0),
+               FMOD(_fx_, _fm_) == _fx_ + _fm_))),
+    patterns=[FMOD(_fx_, _fm_)]))
+SPEC_CONSTS["PI"] = z3.Real("PI")
+_BG0.append(z3.And(z3.Real("PI") > z3.RealVal("3.14159"),
+                   z3.Real("PI") < z3.RealVal("3.1416")))
+_SQRT = z3.Function("SQRT", z3.RealSort(), z3.RealSort())
+_BG0.append(z3.ForAll([_fx_], z3.And(
+    _SQRT(_fx_) >= 0,
+    z3.Implies(_fx_ >= 0, _SQRT(_fx_) * _SQRT(_fx_) == _fx_)),
+    patterns=[_SQRT(_fx_)]))
+# the numeric functions numpy applies element-wise, by name, for contracts
+for _nm in ("COS", "SIN", "SQRT", "ARCTAN2"):
+    LIB["spec." + _nm] = E.LibFunc(
+        "spec." + _nm, (lambda I, *a, _nm=_nm: uf(
+            _nm, z3.RealSort(), *[to_real(_val(x)) for x in a])))
+LIB["spec.FMOD"] = E.LibFunc(
+    "spec.FMOD", lambda I, a, b: FMOD(to_real(_val(a)), to_real(_val(b))))
 
 _UFS = {}
 
